@@ -4,7 +4,7 @@ from c03 import CURVES, ref_mul, ref_add, ref_on, all_points, N, P, GX, GY
 from c01 import h256, ref_der, ref_verify, bip66_valid, sec1, openssl_verify, _ctx
 
 ID = "C02"
-MAKE_TARGETS = ["Props/C02.v", "Props/SmallCurvesAll.v", "GenProps/CurveGen.v"]
+MAKE_TARGETS = ["Props/C02.v", "Props/SmallCurvesAll.v", "Props/Secp256k1.v", "GenProps/CurveGen.v"]
 GEN_TABLES = ["CurveGen"]
 CASE_TIMEOUT = 60.0
 FILLER = {"secp-verify-rand"}
